@@ -110,7 +110,8 @@ def run(ctx):
         ctx, "proof",
         "Lean theorems: decode(encode v) = v for every descriptor and value (mutual induction, no bound); the descriptor and "
         "procedure tables REGENERATED from nfs_xdr.go equal the tables transcribed from the RFC; oversize inputs refused; no proper prefix of an encoding decodes (truncated_rejected, every "
-        "descriptor); the decoder never looks past what it consumes; every decoded value re-encodes to the same length and decodes to itself (decoded_values_reencode). "
+        "descriptor); the decoder never looks past what it consumes; every decoded value re-encodes to the same length and decodes to itself (decoded_values_reencode), and to the very bytes consumed when booleans / presence flags are 0 or 1 and padding is zero "
+        "(canonical_input_reencodes_to_itself: the decoder's leniency is exactly those two freedoms). "
         "The codec model is tied to the real Xdr methods by correspondence on structured values and mutated byte strings.",
         "per type: structured random values (every union arm, optional/list shape, boundary lengths, one beyond each declared bound, and for unbounded strings lengths up to 70000) encoded and decoded by the "
         "real generated code and by the Lean codec with the RFC descriptors; each encoding mutated (truncate, bit flip, word "
@@ -118,5 +119,5 @@ def run(ctx):
         "real encodings of generated argument values cut short at five places (the handler must be reached exactly when the RFC decoder accepts the message)",
         ["Spec/Rfc1813.lean is a transcription of RFC 1813's XDR text (go-rpcgen rfc1813/prot.x) made with tools/xspec.py",
          "Mountres3 (a result type) is excluded from the mutated-bytes stream: its decoder allocates the announced array length"],
-        pending=["byte-for-byte equality of decode-then-encode on inputs with canonical booleans and zero padding (proved: same length and same value on every accepted input, identity on what the encoder wrote)"],
+        pending=[],
         partial=[])
